@@ -586,6 +586,12 @@ pub fn evaluate(case: &Case, results: &[Vec<RunResult>], report: &mut CaseReport
                     return Verdict::Vacuous(format!("intended-valid world rejected: {e}"));
                 }
                 Outcome::Ok => {
+                    if !r.elsewhere.is_empty() {
+                        return Verdict::violation(
+                            "wrote-outside-output-directory",
+                            format!("build {bi}: changed outside the output directory: {:?}", r.elsewhere),
+                        );
+                    }
                     if let Some(c) = &collision {
                         return Verdict::violation(
                             "collision-accepted",
